@@ -281,6 +281,180 @@ def explore(funcs, index, enums, text):
     return res
 
 
+def explore_prune(funcs, index, enums, text):
+    """C03: -name X -prune -o -print with the set of directories X selects symbolic; -depth absent, given before, given after"""
+    import re
+    mm = re.search(r"_0 = Config \{ ([^}]*) \}", text or "")
+    CONFIG_FIELDS[:] = [f.split(":")[0].strip() for f in mm.group(1).split(", ")] if mm else []
+    res = {"kind": "prune", "paths": 0, "checks": 0, "violations": [], "unsupported": {}, "samples": []}
+    dirs = [p for p, _d, k in TREE if k in ("dir", "unreadable", "loop")]      # the loop link: a symlink to a directory is not a directory under -P
+    sel = {p: z3.Bool("prune_" + p.replace("/", "_")) for p in dirs}
+    form = z3.Int("depth_form")          # 0: no -depth, 1: -depth before -prune, 2: -depth after -prune
+    state = {}
+
+    def wd_new(m, args):
+        state["wd"] = {"root": text_of(m, args[0])}
+        return Struct("WalkDir", [])
+
+    def wd_opt(name):
+        def f(m, args):
+            state["wd"][name] = args[1]
+            return args[0]
+        return f
+
+    def wd_into_iter(m, args):
+        w = state["wd"]
+        state["it"] = WalkIter(w.get("min_depth", 0), w.get("max_depth", 10 ** 9), bool(w.get("contents_first", False)), bool(w.get("follow_links", False)))
+        return Struct("WalkIter", [])
+
+    def wd_next(m, args):
+        v = deref(args[0])
+        if not (isinstance(v, Struct) and v.ty == "WalkIter"):
+            return models.lookup("<IntoIter as Iterator>::next", "")(m, args, "<IntoIter as Iterator>::next")      # a Vec's IntoIter
+        it = state["it"].next()
+        if it is None:
+            return NONE()
+        if it[0] == "ok":
+            p, d, k = TREE[it[1]]
+            return Some(Ok(Struct("DirEntryV", [PStr(p), d, k in ("dir", "unreadable"), k])))
+        return Some(Err(Struct("WdError", [it[1], PStr(it[2]), it[3]])))
+
+    def wd_skip(m, args):
+        state["it"].skip_current_dir()
+        return UNIT
+
+    def name_matches(m, args):
+        p = text_of(m, m.call("WalkEntry::path", [args[1]]))
+        state["tested"].append(p)
+        if p not in sel:
+            return False
+        v = m.decide(sel[p])
+        state["selv"][p] = v
+        return v
+
+    def printer(m, args):
+        state["visited"].append(text_of(m, m.call("WalkEntry::path", [args[1]])))
+        return True
+
+    def err_obj(a):
+        v = deref(a[0])
+        while isinstance(v, (Ptr, BoxObj)):
+            v = deref(v)
+        return v
+
+    def std_or_crate(name, fn_std):
+        def f(m, a):
+            v = deref(a[0])
+            if isinstance(v, Enum):
+                return m.run(m.index[name], a)
+            return fn_std(v.fields[0])
+        return f
+    KIND = {"dir": "d", "unreadable": "d", "file": "f", "dangling": "l", "loop": "l"}
+    nat = {"WalkDir::new": wd_new, "WalkDir::contents_first": wd_opt("contents_first"), "WalkDir::max_depth": wd_opt("max_depth"),
+           "WalkDir::min_depth": wd_opt("min_depth"), "WalkDir::same_file_system": wd_opt("same_file_system"),
+           "WalkDir::follow_links": wd_opt("follow_links"), "WalkDir::follow_root_links": wd_opt("follow_root_links"),
+           "WalkDir::sort_by": wd_opt("sort_by"), "<WalkDir as IntoIterator>::into_iter": wd_into_iter,
+           "<IntoIter as Iterator>::next": wd_next, "IntoIter::skip_current_dir": wd_skip,
+           "DirEntry::path": lambda m, a: deref(a[0]).fields[0], "DirEntry::depth": lambda m, a: deref(a[0]).fields[1],
+           "DirEntry::into_path": lambda m, a: deref(a[0]).fields[0],
+           "DirEntry::file_type": lambda m, a: Struct("StdFileType", [KIND[deref(a[0]).fields[3]]]),
+           "FileType::is_symlink": std_or_crate("FileType::is_symlink", lambda k: k == "l"),
+           "FileType::is_dir": std_or_crate("FileType::is_dir", lambda k: k == "d"),
+           "FileType::is_file": lambda m, a: deref(a[0]).fields[0] == "f",
+           "<FileType as Into>::into": lambda m, a: m.call("<FileType as From<FileType>>::from", a),
+           "<Printer as Matcher>::matches": printer, "<NameMatcher as Matcher>::matches": name_matches,
+           "NameMatcher::new": lambda m, a: Struct("NameMatcher", []),
+           "Error::path": lambda m, a: Some(err_obj(a).fields[1]), "Error::depth": lambda m, a: err_obj(a).fields[2],
+           "Error::io_error": lambda m, a: Some(Struct("IoError", [err_obj(a).fields[0]])) if err_obj(a).fields[0] is not None else NONE(),
+           "Error::raw_os_error": lambda m, a: Some(err_obj(a).fields[0]),
+           "<impl Into<PathBuf> as Into>::into": lambda m, a: PStr(text_of(m, a[0])), "<Path as ToOwned>::to_owned": lambda m, a: PStr(text_of(m, a[0])),
+           "Option::as_deref": lambda m, a: deref(a[0]),
+           "Path::is_dir": lambda m, a: dict((q, k) for q, _d, k in TREE).get(text_of(m, a[0])) in ("dir", "unreadable", "loop"),      # stat(): follows links
+           "Error::from_raw_os_error": lambda m, a: Struct("IoError", [a[0]]),
+           "Error::kind": lambda m, a: Enum("ErrorKind", {ENOENT: "NotFound", EACCES: "PermissionDenied"}.get(err_obj(a).fields[0], "Other"), []),
+           "<ErrorKind as PartialEq>::eq": lambda m, a: _vname(deref(a[0])) == _vname(deref(a[1])),
+           "<ErrorKind as Into>::into": lambda m, a: Struct("IoError", [0]),
+           "<Option<i32> as PartialEq>::eq": lambda m, a: (deref(a[0]).variant == deref(a[1]).variant and (deref(a[0]).variant == "None" or deref(a[0]).fields[0] == deref(a[1]).fields[0])),
+           "parse_str_to_newer_args": lambda m, a: NONE()}
+
+    def opt_unwrap_or_else(m, args, raw):
+        v = args[0]
+        if v.variant in ("Some", "Ok"):
+            return v.fields[0]
+        mc = re.search(r"\{closure@[^}]*\}", raw)
+        return m.run(m.index[mc.group(0)], [args[1]])
+    models.EXACT["Option::unwrap_or_else"] = opt_unwrap_or_else
+
+    def opt_and_then(m, args, raw):
+        v = args[0]
+        if v.variant != "Some":
+            return NONE()
+        mc = re.search(r"\{closure@[^}]*\}", raw)
+        return m.run(m.index[mc.group(0)], [args[1], v.fields[0]])
+    models.EXACT["Option::and_then"] = opt_and_then
+    m = Machine(funcs, index, enums, models, natives=nat, max_steps=2000000)
+    m.base_constraints = [form >= 0, form <= 2]
+    m.pending = [[]]
+    t0 = time.time()
+    while m.pending:
+        m.reset_path(m.pending.pop())
+        state.update(wd={}, it=None, visited=[], tested=[], selv={})
+        try:
+            fm = m.decide_int(form, [0, 1]); fm = 2 if fm is None else fm
+            expr = {0: ["-name", "X", "-prune", "-o", "-print"], 1: ["-depth", "-name", "X", "-prune", "-o", "-print"], 2: ["-name", "X", "-prune", "-o", "-depth", "-print"]}[fm]
+            cfg = [m.call("<Config as Default>::default", [])]
+            r = m.call("build_top_level_matcher", [SliceRef([RStr(t) for t in expr]), Ptr(cfg, 0)])
+            if r.variant != "Ok":
+                raise Unsupported("expression rejected: %r" % expr)
+            quit_cell = [False]
+            ret = m.call("process_dir", [RStr("r"), Ptr(cfg, 0), Opaque("deps"), Ptr(r.fields[0].cell, 0), Ptr(quit_cell, 0)])
+        except RustPanic as e:
+            res["violations"].append({"what": "panic: " + str(e)[:100]})
+            res["paths"] += 1
+            continue
+        except Unsupported as e:
+            res["unsupported"][str(e)[:110]] = res["unsupported"].get(str(e)[:110], 0) + 1
+            continue
+        except PathAbort:
+            continue
+        res["paths"] += 1
+        res["checks"] += 1
+        selv = state["selv"]
+        depth_first = fm != 0
+        # reference, from the property
+        order, want_err = [], [False]
+
+        def visit(i, cut):
+            p, d, k = TREE[i]
+            isdir = k in ("dir", "unreadable")
+            selected = selv.get(p, False)             # -name X -prune is true: the entry is not printed (-o)
+            pruned_here = isdir and selected          # ... and, in the default order, a directory's descendants are left out
+            if isdir and not depth_first:
+                order.append((p, selected))
+            if isdir and (depth_first or not pruned_here):
+                if k == "unreadable":
+                    want_err[0] = True
+                for j in children(i):
+                    visit(j, cut)
+            if not isdir or depth_first:
+                order.append((p, selected))
+        visit(0, False)
+        want = [p for p, pr in order if not pr]
+        # which selection bits the path actually read
+        conf = "%s, X selects %r" % (" ".join(expr), sorted(p for p, v in selv.items() if v))
+        unread = [p for p in sel if p not in selv]
+        if state["visited"] != want:
+            res["violations"].append({"what": "%s: printed %r, expected %r" % (conf, state["visited"], want), "config": conf})
+        if (ret != 0) != want_err[0]:
+            res["violations"].append({"what": "%s: status %r, expected %s" % (conf, ret, "non-zero (unreadable directory entered)" if want_err[0] else "0"), "config": conf})
+        if len(res["samples"]) < 3 and any(selv.values()):
+            res["samples"].append({"config": conf, "printed": state["visited"], "status": ret})
+    res["wall_s"] = round(time.time() - t0, 2)
+    res["solver_calls"] = m.stats["solver_calls"]
+    res["functions_executed"] = sorted(m.executed)
+    return res
+
+
 CONFIG_FIELDS = []
 
 
@@ -298,7 +472,7 @@ def set_config(m, cfg, mn, mx, df, follow):
 if __name__ == "__main__":
     text = open(sys.argv[1]).read() if len(sys.argv) > 1 else None
     funcs, index, enums, secs, text = loader.load(os.environ.get("FINDUTILS_REPO", "/repo"), text)
-    r = explore(funcs, index, enums, text)
+    r = explore(funcs, index, enums, text) if os.environ.get("MODE") != "prune" else explore_prune(funcs, index, enums, text)
     v = r.pop("violations")
     print(json.dumps({k: r[k] for k in ("kind", "paths", "checks", "solver_calls", "wall_s", "unsupported", "samples")})[:900])
     print(len(v), "violations")
